@@ -4402,6 +4402,18 @@ impl Compiler {
             let patterns_len = nested_patterns.len() as u8;
 
             let comparison_op = if first_or_last_pattern_is_ellipsis {
+                // Values without a size (e.g. null or a number) can't be compared with `>=`,
+                // so they need to be treated as a failed match before the comparison is made.
+                self.push_op(JumpIfNull, &[temp_register]);
+                if params.is_last_alternative {
+                    params.jumps.arm_end.push(self.push_offset_placeholder());
+                } else {
+                    params
+                        .jumps
+                        .alternative_end
+                        .push(self.push_offset_placeholder());
+                }
+
                 self.push_op(SetNumberU8, &[expected_register, patterns_len - 1]);
                 GreaterOrEqual
             } else {
